@@ -26,6 +26,8 @@ def fam_full(rng, n):
 def fam_lowrank(rng, n):
     q = max(1, [n // 2, n - 1, (n + 1) // 2][n % 3])      # the same numerical rank for every member of a batch
     B = torch.tensor([[_dy(rng) for _ in range(q)] for _ in range(n)], dtype=DT).reshape(n, q)
+    if float(B.abs().max()) == 0.0:
+        B[0, 0] = 1.0                      # the zero matrix (largest diagonal entry 0) is outside the property's domain
     return B @ B.T, {"root": B, "q": q}
 
 
@@ -33,6 +35,8 @@ def fam_lowrank_mixed(rng, n):
     # members of different numerical rank in one batch (the loop guard is shared by the batch)
     q = max(1, rng.choice([1, n // 2, n - 1]))
     B = torch.tensor([[_dy(rng) for _ in range(q)] for _ in range(n)], dtype=DT).reshape(n, q)
+    if float(B.abs().max()) == 0.0:
+        B[0, 0] = 1.0                      # the zero matrix (largest diagonal entry 0) is outside the property's domain
     return B @ B.T, {"root": B, "q": q}
 
 
